@@ -110,6 +110,11 @@ fn pool() -> Vec<Value> {
         Value::String("2015-07-30T03:26:13Z".into()), Value::String("i1".into()),
         dt(0), dt(1438226773), dt(8210266876799), dt(-8334601228800), dt(1451606400), dt(1546214400), dt(1483228799),
         dur(0), dur(1), dur(-1), dur(i64::MAX / 1000), dur(-(i64::MAX / 1000)), dur(604800),
+        // sub-second instants and spans (micro / nano), the same second apart; decimals that differ only in scale or in the sign of zero
+        Value::DateTime(DateTime::from_timestamp(1438226773, 500_000).unwrap()), Value::DateTime(DateTime::from_timestamp(1438226773, 123_456_789).unwrap()),
+        Value::DateTime(DateTime::from_timestamp(1438226773, 750_000_000).unwrap()), Value::DateTime(DateTime::from_timestamp(-1, 999_999_999).unwrap()),
+        Value::Duration(TimeDelta::nanoseconds(500_000)), Value::Duration(TimeDelta::milliseconds(500)), Value::Duration(TimeDelta::milliseconds(-500)), Value::Duration(TimeDelta::nanoseconds(1)),
+        dec("1.50"), dec("1.5"), dec("100.000"), dec("0.00"), dec("-0.0"), dec("0.0000000000000000000000000001"),
         Value::Vec(vec![]), Value::Vec(vec![Value::Int(1), Value::None]), Value::Vec(vec![Value::Vec(vec![Value::Int(10), Value::Int(20)]), Value::Int(30)]),
         Value::Map(BTreeMap::new()), Value::Map(m1),
     ]
@@ -508,6 +513,31 @@ fn family_lazy() {
             check_scenario(&mut rep, "unary", &tags, vec![("r".into(), f(l.clone()))], &syms, &facts);
         }
     }
+    // a NaN (literal or computed) on the left of == / != does not excuse the right operand
+    for nan in [v(f64::NAN), Expr::div(v(0.0), v(0.0)), call("probe", v(f64::NAN))] {
+        for r in [call("probe", v(1)), bad(), call("probe", v(f64::NAN)), v(1)] {
+            check_scenario(&mut rep, "nan-eq", &tags, vec![("r".into(), Expr::eq(nan.clone(), r.clone()))], &syms, &facts);
+            check_scenario(&mut rep, "nan-neq", &tags, vec![("r".into(), Expr::neq(nan.clone(), r.clone()))], &syms, &facts);
+            check_scenario(&mut rep, "nan-gt", &tags, vec![("r".into(), Expr::gt(nan.clone(), r.clone()))], &syms, &facts);
+        }
+    }
+    // the same item / entry / operand written twice is evaluated twice
+    for n in [2usize, 3, 5] {
+        let same: Vec<Expr> = (0..n).map(|_| call("probe", v(1))).collect();
+        check_scenario(&mut rep, "vec-repeat", &tags, vec![("r".into(), Expr::Vec(same.clone()))], &syms, &facts);
+        check_scenario(&mut rep, "vec-repeat-nested", &tags, vec![("r".into(), Expr::Vec(vec![Expr::Vec(same.clone()), Expr::Vec(same.clone())]))], &syms, &facts);
+        let m: BTreeMap<String, Expr> = same.iter().enumerate().map(|(k, e)| (format!("k{k}"), e.clone())).collect();
+        check_scenario(&mut rep, "map-repeat", &tags, vec![("r".into(), Expr::Map(m))], &syms, &facts);
+    }
+    // chains of three and four operands: strictly left to right, stopping where the result is decided
+    let t = || call("probe", v(true)); let f = || call("probe", v(false));
+    for a in [t(), f(), bad(), call("probe", v(1))] { for b in [t(), f(), bad()] { for c in [t(), f(), bad(), call("probe", v(7))] {
+        check_scenario(&mut rep, "and-chain", &tags, vec![("r".into(), Expr::and(Expr::and(a.clone(), b.clone()), c.clone()))], &syms, &facts);
+        check_scenario(&mut rep, "or-chain", &tags, vec![("r".into(), Expr::or(Expr::or(a.clone(), b.clone()), c.clone()))], &syms, &facts);
+        check_scenario(&mut rep, "and-right-nested", &tags, vec![("r".into(), Expr::and(a.clone(), Expr::and(b.clone(), c.clone())))], &syms, &facts);
+        check_scenario(&mut rep, "and-chain-4", &tags, vec![("r".into(), Expr::and(Expr::and(Expr::and(a.clone(), b.clone()), c.clone()), t()))], &syms, &facts);
+        check_scenario(&mut rep, "add-chain", &tags, vec![("r".into(), Expr::add(Expr::add(a.clone(), b.clone()), c.clone()))], &syms, &facts);
+    }}}
     // lists / maps / call arguments / index: every position of an erroring element
     for k in 0..4 {
         let mut items = vec![call("probe", v(1)), call("probe", v(2)), call("probe", v(3)), call("probe", v(4))];
@@ -550,6 +580,9 @@ fn family_ruleset() {
         Expr::Vec(vec![call("get", v(-1)), call("get", v(-1))]),
         call("count", v("é".repeat(120))), call("id", v(format!("a{}", "日".repeat(56)))), call("count", v(format!("id {}", "🦀".repeat(40)))), call("count", Expr::Vec(vec![v("é".repeat(97))])),
         Expr::symbol("x"), Expr::add(Expr::symbol("x"), v(1)),
+        call("count", v(Value::DateTime(DateTime::from_timestamp(1709208000, 250_000_000).unwrap()))), call("count", v(Value::DateTime(DateTime::from_timestamp(1709208000, 750_000_000).unwrap()))),
+        call("count", v(Value::Duration(TimeDelta::milliseconds(500)))), call("count", v(Value::Duration(TimeDelta::milliseconds(-500)))), call("count", v(Value::Duration(TimeDelta::nanoseconds(1)))),
+        call("count", v(dec("1.0"))), call("count", v(dec("1.00"))), call("count", v(0.0)), call("count", v(-0.0)),
     ];
     // all pairs and a selection of triples
     for (i, a) in blocks.iter().enumerate() {
@@ -567,6 +600,11 @@ fn family_ruleset() {
         for mid in [call("count_nc", v(1)), call("count_nc", v(Value::None)), bad(), call("get", v(-1)), call("count", v(2)), call("undefined_fn", v(1)), call("flaky", v(1))] {
             check_scenario(&mut rep, "sandwich", &tags, vec![("r1".into(), first.clone()), ("r2".into(), mid.clone()), ("r3".into(), first.clone())], &syms, &facts);
         }
+    }
+    // many distinct cacheable calls in one evaluation, then one of them again (129, 300: past any "reasonable" cache size)
+    for n in [2usize, 129, 300] {
+        let fan: Vec<Expr> = (0..n as i128).map(|k| call("count", v(k))).collect();
+        check_scenario(&mut rep, "fan-out", &tags, vec![("r1".into(), Expr::Vec(fan)), ("r2".into(), call("count", v(0))), ("r3".into(), call("count", v(n as i128 - 1)))], &syms, &facts);
     }
     check_scenario(&mut rep, "empty", &tags, vec![], &syms, &facts);
     // Serialize entry point: evaluate(&input) == evaluate_value(&serialized input) for inputs of every shape
@@ -1034,6 +1072,11 @@ fn family_ser() {
     case!("map keyed by unit variants", [(Color::Red, 1u8), (Color::Green, 2u8)].into_iter().collect::<BTreeMap<Color, u8>>(), Err(()));
     case!("map keyed by chars", [('a', 1u8)].into_iter().collect::<BTreeMap<char, u8>>(), Err(()));
     case!("map keyed by bools", [(true, 1u8)].into_iter().collect::<BTreeMap<bool, u8>>(), Err(()));
+    // lists of two-cell rows stay lists of lists, in order, with repeats (they are not association lists)
+    case!("vec of (String, i32)", vec![("b".to_string(), 1i32), ("a".to_string(), 2), ("b".to_string(), 3)],
+          Ok(Value::Vec(vec![Value::Vec(vec![Value::String("b".into()), Value::Int(1)]), Value::Vec(vec![Value::String("a".into()), Value::Int(2)]), Value::Vec(vec![Value::String("b".into()), Value::Int(3)])])));
+    case!("vec of two-cell string rows", vec![vec!["k".to_string(), "v".to_string()]], Ok(Value::Vec(vec![Value::Vec(vec![Value::String("k".into()), Value::String("v".into())])])));
+    case!("tuple (String, u8)", ("k".to_string(), 1u8), Ok(Value::Vec(vec![Value::String("k".into()), Value::Int(1)])));
     // tuple structs are ordered lists whatever their length (one element is still a list, not the bare element)
     case!("tuple struct of one (skipped second field)", One::<u8>(1.5, std::marker::PhantomData), Ok(Value::Vec(vec![Value::Float(1.5)])));
     case!("tuple struct of none", Zero(), Ok(Value::Vec(vec![])));
